@@ -81,12 +81,14 @@ func (s *Slice) Free()        {}
 // ---- simulated disk ----
 
 var ErrCrashed = errors.New("grocksdb-stub: simulated crash, store is gone")
+var ErrWriteFailed = errors.New("grocksdb-stub: simulated transient write failure")
 
 type disk struct {
 	mu  sync.Mutex
 	cfs map[string]map[string][]byte
 	// fault plan
 	writesLeft int64 // <0: unlimited
+	failNth    int64 // >=0: that many writes succeed, the next one fails once (transient); <0: off
 	crashed    bool
 	nWrites    int64
 	log        []WriteEvent
@@ -114,7 +116,7 @@ func getDisk(path string) *disk {
 	defer disksMu.Unlock()
 	d, ok := disks[path]
 	if !ok {
-		d = &disk{cfs: map[string]map[string][]byte{}, writesLeft: -1}
+		d = &disk{cfs: map[string]map[string][]byte{}, writesLeft: -1, failNth: -1}
 		disks[path] = d
 	}
 	return d
@@ -135,9 +137,17 @@ func (c *StubControl) CrashAfterWrites(n int64) {
 	c.d.crashed = false
 	c.d.mu.Unlock()
 }
+// FailWrite makes the n-th write from now on (0 = the next one) fail without applying anything; writes before and
+// after it succeed (a transient fault, not a crash).
+func (c *StubControl) FailWrite(n int64) {
+	c.d.mu.Lock()
+	c.d.failNth = n
+	c.d.mu.Unlock()
+}
 func (c *StubControl) Restart() {
 	c.d.mu.Lock()
 	c.d.writesLeft = -1
+	c.d.failNth = -1
 	c.d.crashed = false
 	c.d.mu.Unlock()
 }
@@ -168,6 +178,13 @@ func (d *disk) apply(batch bool, ops []Op) error {
 	defer d.mu.Unlock()
 	if d.crashed {
 		return ErrCrashed
+	}
+	if d.failNth >= 0 {
+		if d.failNth == 0 {
+			d.failNth = -1
+			return ErrWriteFailed // this one write is refused (nothing of it is applied); the store keeps working
+		}
+		d.failNth--
 	}
 	if d.writesLeft == 0 {
 		d.crashed = true
@@ -302,7 +319,7 @@ func CopyDisk(from, to string) {
 	}
 	src.mu.Unlock()
 	disksMu.Lock()
-	disks[to] = &disk{cfs: cfs, writesLeft: -1}
+	disks[to] = &disk{cfs: cfs, writesLeft: -1, failNth: -1}
 	disksMu.Unlock()
 }
 
